@@ -805,6 +805,113 @@ def check_rhs_results_not_mutated(rep: Report, ix):
     rep.floor("stepping closures that bind a result of the rate function", n, 5)
 
 
+def check_hook_result_reaches_state(rep: Report, ix) -> None:
+    """the post-step hook *returns* the state ("must return the state data ..., which it can modify in place"): the
+    interpreted fixed stepper copies the returned array back into the caller's buffer, so a hook that returns a new
+    array works there.  Every stepping loop on the numpy and numba back-ends must do the same, otherwise the back-ends
+    diverge (the buffer keeps the state of the first step of each segment).  Rule, per function that calls
+    `post_step_hook` and binds its result as `(target, data) = post_step_hook(...)`: the target is a whole-array store
+    into the function's buffer parameter (`state_data[...]` / `state_data[:]`), or a local name that is copied into the
+    buffer parameter by a whole-array store after the outermost loop containing the call.  Re-binding the buffer
+    parameter itself loses the caller's array."""
+    mods = [m for m in ix.modules.values() if m.rel.startswith("pde/solvers/") or m.rel == "pde/backends/numba/_solvers.py"]
+    n_sites = 0
+
+    def whole_store(t, pname):
+        return (
+            isinstance(t, ast.Subscript)
+            and isinstance(t.value, ast.Name)
+            and t.value.id == pname
+            and (isinstance(t.slice, ast.Constant) and t.slice.value is Ellipsis or isinstance(t.slice, ast.Slice) and t.slice.lower is None and t.slice.upper is None and t.slice.step is None)
+        )
+
+    for m in mods:
+        seen_nodes = set()
+        for f in m.functions.values():
+            if id(f.node) in seen_nodes:
+                continue
+            seen_nodes.add(id(f.node))
+            own = [x for x in _own_nodes(f.node)]
+            calls = [x for x in own if isinstance(x, ast.Assign) and isinstance(x.value, ast.Call) and isinstance(x.value.func, ast.Name) and x.value.func.id == "post_step_hook" and isinstance(x.targets[0], ast.Tuple) and len(x.targets[0].elts) == 2]
+            if not calls:
+                continue
+            params = [a.arg for a in f.node.args.args]
+            if not params:
+                raise AnalysisError(f"{f.ref}: stepping function without a buffer parameter")
+            P = params[0]
+            for asg in calls:
+                n_sites += 1
+                rep.saw("hook call sites", f"{f.ref}:{asg.lineno}")
+                t0 = asg.targets[0].elts[0]
+                ok, why = False, ""
+                if whole_store(t0, P):
+                    ok = True
+                elif isinstance(t0, ast.Name) and t0.id == P:
+                    why = f"the result of the hook re-binds the buffer parameter `{P}`: if the hook returns a new array the caller's array is no longer updated"
+                elif isinstance(t0, ast.Name):
+                    # outermost loop of this function containing the call, and the statements after it in its block
+                    chain = _ancestors(f.node, asg)
+                    loops = [x for x in chain if isinstance(x, (ast.For, ast.While))]
+                    if not loops:
+                        raise AnalysisError(f"{f.ref}:{asg.lineno}: hook call outside a stepping loop")
+                    outer = loops[0]
+                    parent = chain[chain.index(outer) - 1] if chain.index(outer) > 0 else f.node
+                    after = []
+                    for fld in ("body", "orelse", "finalbody"):
+                        blk = getattr(parent, fld, None)
+                        if isinstance(blk, list) and outer in blk:
+                            after = blk[blk.index(outer) + 1 :]
+                    # ... or, still inside the iteration, the statements following the call in its own block
+                    holder = chain[-2] if len(chain) >= 2 else f.node
+                    for fld in ("body", "orelse", "finalbody"):
+                        blk = getattr(holder, fld, None)
+                        if isinstance(blk, list) and asg in blk:
+                            after = after + blk[blk.index(asg) + 1 :]
+                    wb = [st for st in after if isinstance(st, ast.Assign) and len(st.targets) == 1 and whole_store(st.targets[0], P) and isinstance(st.value, ast.Name) and st.value.id == t0.id]
+                    ok = bool(wb)
+                    if not ok:
+                        why = f"the result of the hook is bound to `{t0.id}`, which is never copied back into `{P}` (neither right after the call nor after the loop)"
+                else:
+                    raise AnalysisError(f"{f.ref}:{asg.lineno}: target `{ast.unparse(t0)}` of the hook result is outside the rule's grammar")
+                rep.oblige(f"hook-result-reaches-state:{f.ref}:{asg.lineno}", ok, why or ast.unparse(asg.targets[0]))
+                if not ok:
+                    rep.violation("C06.hook-result-lost", f"{f.ref}::post_step_hook", f"`{ast.unparse(asg)[:120]}`: {why}; the interpreted fixed stepper copies the hook's result back (`state_data[:] = state`), so the back-ends disagree for hooks that return a new array", line=asg.lineno)
+    rep.floor("post-step hook call sites in numpy/numba steppers", n_sites, 7)
+
+
+def _own_nodes(fnode):
+    """nodes of a function body without those of nested functions"""
+    out = []
+    stack = [st for st in fnode.body if not isinstance(st, (ast.FunctionDef, ast.AsyncFunctionDef, ast.ClassDef))]
+    while stack:
+        x = stack.pop()
+        out.append(x)
+        for ch in ast.iter_child_nodes(x):
+            if isinstance(ch, (ast.FunctionDef, ast.AsyncFunctionDef, ast.Lambda, ast.ClassDef)):
+                continue
+            stack.append(ch)
+    return out
+
+
+def _ancestors(fnode, target):
+    """statement chain from the function body down to `target` (exclusive of fnode)"""
+    path = []
+
+    def rec(node, acc):
+        for ch in ast.iter_child_nodes(node):
+            if ch is target:
+                path.extend(acc + [ch])
+                return True
+            if isinstance(ch, (ast.FunctionDef, ast.AsyncFunctionDef, ast.Lambda, ast.ClassDef)):
+                continue
+            if rec(ch, acc + [ch]):
+                return True
+        return False
+
+    rec(fnode, [])
+    return path
+
+
 def check(tier: str) -> Report:
     rep = Report("C06", tier, "proof", "tableau extraction by abstract interpretation with an uninterpreted right-hand side; rooted-tree order conditions; fixed-point solution of implicit iterations; sibling comparison of stepping loops")
     rep.explanation = (
@@ -887,6 +994,7 @@ def check(tier: str) -> Report:
     check_adaptive(rep, ix)
     check_convergence_measure(rep, ix)
     check_rhs_results_not_mutated(rep, ix)
+    check_hook_result_reaches_state(rep, ix)
     rep.floor("stepping constructs analysed", len(rep.analysed.get("steppers", [])) + len(rep.analysed.get("adaptive loops", [])), 16)
     rep.assumptions += [
         "post-step hooks are the identity on the state (default)",
